@@ -68,6 +68,14 @@ type Case struct {
 	At   int      `json:"failing_execution,omitempty"` // 1-based, in a reported failure
 }
 
+// progClass: the class of the program (of a history: of the program its executions share)
+func (cs *Case) progClass() string {
+	if cs.Of != "" {
+		return cs.Of
+	}
+	return cs.Class
+}
+
 // noModel: raw AWK programs are outside the rule language of the Lean machine
 func (cs *Case) noModel() bool { return cs.Class == "raw" || cs.Class == "special" }
 
@@ -437,7 +445,7 @@ func (g *awkGen) ops(ops []Op, ind string) string {
 
 func (cs *Case) awk(plain bool) string {
 	g := &awkGen{rng: rand.New(rand.NewSource(cs.Variant)), pipeOf: map[string]bool{}, files: cs.Files, plain: plain}
-	if !plain && len(cs.Stdin) == 0 && !strings.HasPrefix(cs.Class, "long") { // (a process per getline is too slow for the long runs)
+	if !plain && len(cs.Stdin) == 0 && !strings.HasPrefix(cs.progClass(), "long") { // (a process per getline is too slow for the long runs)
 		// `cmd | getline` hands the interpreter's stdin to the child process (os/exec copies it), so the pipe spelling is used
 		// only when stdin is empty
 		for _, f := range sortedKeys(cs.Files) {
